@@ -16,6 +16,14 @@ Suites
   rest       (oracle only) the pecan application with two projects + admin: reads of private resources by id /
              name / list / all_projects, PUT / DELETE of another project's public resources, event trigger
              delete (db function is insecure, the controller must fetch first), membership re-share.
+  rest_lists every controller method that lists through rest_utils.get_all (13, found by translate/tr_restlists.py) x
+             generated query strings (all_projects, project_id of own / other projects, name with and without
+             operators, every other accepted filter alone and together with project_id, fields / sort / limit /
+             marker) x callers {other+member, owner, admin(, third project)} on the real pecan application
+             (auth_enable=True, project ids in uuid form so that typed query parameters accept them).
+             Compared with Tenancy.rest_view (generated insecure_cond + policy gates + _secure_query); oracle:
+             neither the response nor what the db layer handed to the controller (spy on _get_collection) holds
+             a private row of another project.  A 400 on a tenancy parameter counts as a disagreement (vacuous probe).
   expr       (oracle only) executions() / tasks() / task() / global() / execution() of
              mistral/expressions/std_functions.py under a foreign project context.
 Oracle (no model involved), per call made under a foreign non-admin context:
@@ -58,6 +66,14 @@ Self-test (scratch worktree, `VERIF_REPO=/tmp/wt_C15 ./check C15`), each gives N
       delete_workflow_definition, update_workflow_execution, delete_cron_trigger; helpers theorem breaks
   M12 api/controllers/v2/event_trigger.py delete: fetch with insecure=True -> private-write:delete_event_trigger (REST)
 All twelve were caught with a concrete replayable input (none missed).
+Missed at first, caught since the rest_lists suite and the REST list model exist:
+  S1  utils/rest_utils.py get_all: `insecure = True` also when filters.get('project_id') (seeded regression)
+      -> rest-list-private-read:/v2/workflows?project_id, /v2/cron_triggers?project_id; C15_rest_lists_isolated breaks.
+      (cause of the miss: the old probe sent project_id=pA, rejected with 400 by the uuid-typed parameter)
+  M13 api/controllers/v2/workflow.py get_all: drop the `if all_projects: acl.enforce(...)` gate
+      -> rest-list-private-read:/v2/workflows?all_projects; C15_rest_lists_isolated breaks
+  M14 policies/cron_trigger.py: 'cron_triggers:list:all_projects' -> RULE_ADMIN_OR_OWNER
+      -> rest-list-private-read:/v2/cron_triggers?all_projects; C15_rest_lists_isolated breaks
 """
 import datetime
 import inspect
@@ -68,7 +84,7 @@ import sys
 
 from harness import core
 
-GEN = ['DbShapes']
+GEN = ['DbShapes', 'RestLists']
 
 MANIFEST = {
     'level_text': 'Coq theorems, closed under the global context, over the executable model Tenancy.exec_op and the access-shape '
@@ -78,20 +94,34 @@ MANIFEST = {
                   'foreign rows, and every unguarded writing function of the table provably lets a foreign project overwrite a '
                   'public row (F2, refuted with witness); owner forced on hooked classes over any history (refuted for '
                   'EventTrigger, F9); only accepted shares count, only the member changes status, only the creator deletes '
-                  '(re-share by a member refuted, F7). Model tied to the code by the extractor (fail closed, helper facts '
+                  '(re-share by a member refuted, F7); REST lists: for every list endpoint, database, non-admin caller and '
+                  'request (all_projects, project_id of any project, filters) the result holds only visible rows. Model tied to the code by the extractor (fail closed, helper facts '
                   'compared) and by an exhaustive differential matrix on a real sqlite DB with auth enabled.',
     'level_note': 'Trusted: the ast extractor and its allow-list of engine-internal functions (checked not to be referenced '
                   'from mistral/api and mistral/expressions), SQLAlchemy/sqlite semantics of filter/first/delete (correspondence '
-                  'only), keystone/policy layer (C16). REST layer and expression functions are covered by the implementation-side '
-                  'oracle only, not by the model. Histories that interleave membership changes with resource calls are covered '
+                  'only), keystone and oslo.policy evaluation (defaults only; C16). The REST LIST layer is modelled and proved '
+                  '(insecure decision of rest_utils.get_all and the per-controller policy gates are extracted, fail closed); '
+                  'REST item / write paths and expression functions are covered by the implementation-side oracle only. Histories that interleave membership changes with resource calls are covered '
                   'per step, not by the sequence theorem.',
     'technique': 'Coq proof (invariants over call sequences) over a generated shape table; ast extractor; exhaustive differential matrix',
     'design_ref': '6 C15',
 }
 
-IMPORTS = ['Model.Tenancy', 'Gen.DbShapes']
+IMPORTS = ['Model.Tenancy', 'Gen.DbShapes', 'Gen.RestLists']
 
 PROJ = {'pA': 1, 'pB': 2, 'pC': 3, 'pAdm': 9, 'pZ': 77}
+# the project ids the real code sees (REST query parameters of type uuid must accept them);
+# snapshots translate them back, so the rest of the harness speaks in the short names
+PID = {'pA': 'aaaa1111' * 4, 'pB': 'bbbb2222' * 4, 'pC': 'cccc3333' * 4, 'pAdm': 'dddd9999' * 4, 'pZ': 'eeee7777' * 4}
+PID_INV = {v: k for k, v in PID.items()}
+
+
+def P(name):
+    return PID.get(name, name)
+
+
+def UNP(pid):
+    return PID_INV.get(pid, pid)
 PROJ_INV = {v: k for k, v in PROJ.items()}
 STATUS = {'pending': 0, 'accepted': 1, 'rejected': 2}
 STATUS_COQ = {'pending': 'Pending', 'accepted': 'Accepted', 'rejected': 'Rejected'}
@@ -163,7 +193,7 @@ def boot():
 def mkctx(project, admin=False):
     auth = boot()['auth']
     return auth.MistralContext.from_dict({
-        'user_name': 'u-' + project, 'user': 'u-' + project, 'tenant': project, 'project_id': project,
+        'user_name': 'u-' + project, 'user': 'u-' + project, 'tenant': P(project), 'project_id': P(project),
         'project_name': project, 'is_admin': admin, 'roles': ['admin'] if admin else ['member']})
 
 
@@ -212,10 +242,11 @@ def snapshot(only=None):
             for r in conn.execute(sa.select(cls.__table__)).mappings():
                 d = dict(r)
                 d.pop('updated_at', None)
+                d['project_id'] = UNP(d['project_id'])
                 rows[(n, d['id'])] = d
         mems = []
         for r in conn.execute(sa.select(models.ResourceMember.__table__)).mappings():
-            mems.append((r['resource_id'], r['resource_type'], r['project_id'], r['member_id'], r['status']))
+            mems.append((r['resource_id'], r['resource_type'], UNP(r['project_id']), UNP(r['member_id']), r['status']))
     return rows, sorted(mems)
 
 
@@ -252,8 +283,8 @@ def insert_row(model, n, owner, scope, name_tok, ns_tok, data_tok):
     eng = boot()['sa_base'].get_engine()
     cls = secure_tables()[model]
     v = base_values(model, n, 'n%d' % name_tok, NS[ns_tok], scope, 'd%d' % data_tok, project=owner)
-    v['project_id'] = owner
-    v['created_at'] = datetime.datetime(2030, 1, 1, 0, 0, n)
+    v['project_id'] = P(owner)
+    v['created_at'] = datetime.datetime(2030, 1, 1, 0, (n // 60) % 60, n % 60)
     cols = set(c.name for c in cls.__table__.columns)
     v = {k: x for k, x in v.items() if k in cols}
     if 'workflow_input_hash' in cols:
@@ -270,7 +301,7 @@ def insert_member(res_n, rtype, owner, member, status):
     with eng.begin() as conn:
         conn.execute(models.ResourceMember.__table__.insert().values(
             id=uid(900 + len(status) + PROJ[member] * 10 + PROJ[owner]), resource_id=uid(res_n), resource_type=rtype,
-            project_id=owner, member_id=member, status=status, created_at=datetime.datetime(2030, 1, 1)))
+            project_id=P(owner), member_id=P(member), status=status, created_at=datetime.datetime(2030, 1, 1)))
     _DIRTY.add('ResourceMember')
 
 
@@ -430,14 +461,14 @@ def build_call(entry, cell):
             kw['name'] = 'n100'
             ca['fname'] = 100
         elif addr == 'filter-owner':
-            kw['project_id'] = 'pA'
+            kw['project_id'] = P('pA')
             ca['fowner'] = 1
     elif k == 'create':
         name = 102 if addr == 'fresh' else 100
         v = base_values(m, 4, 'n%d' % name, '', 'private', 'd42', project=project)
         ca['new_name'] = name
         if variant == 'foreign_pid':
-            v['project_id'] = 'pZ'
+            v['project_id'] = P('pZ')
             ca['owner_val'] = 77
         args = [v]
     elif k == 'update':
@@ -449,7 +480,7 @@ def build_call(entry, cell):
             v['scope'] = cell['scope']
             ca['set_scope'] = cell['scope']
         if variant == 'foreign_pid':
-            v['project_id'] = 'pZ'
+            v['project_id'] = P('pZ')
             ca['owner_val'] = 77
         args = [ident, v]
     elif k == 'create_or_update':
@@ -702,7 +733,7 @@ def member_cells():
 
 
 def mem_tuple(m):
-    return (tok_id(m.resource_id), MTYPE.get(m.resource_type, 5), PROJ.get(m.project_id, -1), PROJ.get(m.member_id, -1),
+    return (tok_id(m.resource_id), MTYPE.get(m.resource_type, 5), PROJ.get(UNP(m.project_id), -1), PROJ.get(UNP(m.member_id), -1),
             STATUS.get(m.status, 9))
 
 
@@ -720,23 +751,23 @@ def run_member_cell(cell):
     op, tgt = cell['op'], cell['target']
     g = {'res': 1, 'type': MTYPE[rtype], 'member': PROJ.get(tgt, 0), 'owner': None, 'status': 'Pending'}
     if op == 'create':
-        v = {'resource_id': uid(1), 'resource_type': 'workflow', 'member_id': tgt}
+        v = {'resource_id': uid(1), 'resource_type': 'workflow', 'member_id': P(tgt)}
         if cell['variant'] == 'owner-given':
-            v['project_id'] = 'pA'
+            v['project_id'] = P('pA')
             g['owner'] = 1
         if cell['variant'] == 'accepted-given':
             v['status'] = 'accepted'
             g['status'] = 'Accepted'
         fn, args = db_api.create_resource_member, [v]
     elif op == 'get':
-        fn, args = db_api.get_resource_member, [uid(1), rtype, tgt]
+        fn, args = db_api.get_resource_member, [uid(1), rtype, P(tgt)]
     elif op == 'list':
         fn, args = db_api.get_resource_members, [uid(1), rtype]
     elif op == 'update':
-        fn, args = db_api.update_resource_member, [uid(1), rtype, tgt, {'status': cell['variant']}]
+        fn, args = db_api.update_resource_member, [uid(1), rtype, P(tgt), {'status': cell['variant']}]
         g['status'] = STATUS_COQ[cell['variant']]
     else:
-        fn, args = db_api.delete_resource_member, [uid(1), rtype, tgt]
+        fn, args = db_api.delete_resource_member, [uid(1), rtype, P(tgt)]
     _DIRTY.update(['ResourceMember', 'WorkflowDefinition'])
     auth.set_ctx(mkctx(cell['caller'], cell['admin']))
     try:
@@ -873,7 +904,7 @@ def random_call(rng, table_entries, model, placed):
             kw['name'] = 'n%d' % target[2]
             ca['fname'] = target[2]
         elif r < 0.6:
-            kw['project_id'] = target[1]
+            kw['project_id'] = P(target[1])
             ca['fowner'] = PROJ[target[1]]
         if k == 'list' and rng.random() < 0.15:
             kw['insecure'] = True
@@ -886,7 +917,7 @@ def random_call(rng, table_entries, model, placed):
         del v['id']
         ca.update(new_name=name, new_ns=ns, new_scope=scope)
         if rng.random() < 0.3:
-            v['project_id'] = 'pZ'
+            v['project_id'] = P('pZ')
             ca['owner_val'] = 77
         args = [v]
     elif k == 'update':
@@ -1123,7 +1154,7 @@ def suite_rest(ctx):
                 ctx.fail('rest-private-read:GET %s' % u.replace(uid(1), '<id>'),
                          'GET %s as project pB returns the private %s of project pA (status %d)' % (u, model, st),
                          {'rest': 'GET', 'url': u, 'model': model})
-        for u in [lst, lst + '?all_projects=true' if allp else None, lst + '?project_id=pA', lst + '?name=n100']:
+        for u in [lst, lst + '?all_projects=true' if allp else None, lst + '?project_id=' + P('pA'), lst + '?name=n100']:
             if not u:
                 continue
             st, body = req('pB', False, 'get', u)
@@ -1133,7 +1164,7 @@ def suite_rest(ctx):
             if st >= 500:
                 errors.append([u, st, body[:160]])
             if 200 <= st < 300 and (uid(1) in body or '"n100"' in body):
-                ctx.fail('rest-private-read:GET %s' % u, 'GET %s as project pB lists the private %s of project pA (status %d)'
+                ctx.fail('rest-private-read:GET %s' % u.replace(P('pA'), '<other-project>'), 'GET %s as project pB lists the private %s of project pA (status %d)'
                          % (u, model, st), {'rest': 'GET', 'url': u, 'model': model})
         if snapshot() != before:
             ctx.fail('rest-private-write:GET', 'a GET changed rows', {'model': model})
@@ -1157,9 +1188,9 @@ def suite_rest(ctx):
                          % (method.split('_')[0].upper(), u, 'deleted' if gone else 'changed', scope, model, st),
                          {'rest': method, 'url': u, 'body': body, 'scope': scope, 'model': model})
     # 3. project_id in a request body never becomes the owner
-    for (url, body, model) in [('/v2/environments', {'name': 'n102', 'variables': {}, 'project_id': 'pA'}, 'Environment'),
+    for (url, body, model) in [('/v2/environments', {'name': 'n102', 'variables': {}, 'project_id': P('pA')}, 'Environment'),
                                ('/v2/event_triggers', {'name': 'n102', 'workflow_id': uid(1), 'exchange': 'x', 'topic': 't', 'event': 'e',
-                                                       'project_id': 'pA'}, 'EventTrigger')]:
+                                                       'project_id': P('pA')}, 'EventTrigger')]:
         wipe()
         insert_row('WorkflowDefinition', 1, 'pB', 'private', 100, 0, 5)
         st, rbody = req('pB', False, 'post_json', url, body)
@@ -1178,18 +1209,18 @@ def suite_rest(ctx):
         conn.execute(t.update().values(definition=WF_DEF, spec=WF_SPEC))
     base = '/v2/workflows/%s/members' % uid(1)
     steps = []
-    steps.append(('pC self-offer', req('pC', False, 'post_json', base, {'member_id': 'pC'})[0]))
-    steps.append(('pA offers pB', req('pA', False, 'post_json', base, {'member_id': 'pB'})[0]))
+    steps.append(('pC self-offer', req('pC', False, 'post_json', base, {'member_id': P('pC')})[0]))
+    steps.append(('pA offers pB', req('pA', False, 'post_json', base, {'member_id': P('pB')})[0]))
     st_pending = req('pB', False, 'get', '/v2/workflows/%s' % uid(1))[0]
     steps.append(('pB reads while pending', st_pending))
-    steps.append(('pA accepts for pB', req('pA', False, 'put_json', base + '/pB', {'status': 'accepted'})[0]))
+    steps.append(('pA accepts for pB', req('pA', False, 'put_json', base + '/' + P('pB'), {'status': 'accepted'})[0]))
     st_after_forged = req('pB', False, 'get', '/v2/workflows/%s' % uid(1))[0]
     steps.append(('pB reads after pA tried to accept', st_after_forged))
-    steps.append(('pB accepts', req('pB', False, 'put_json', base + '/pB', {'status': 'accepted'})[0]))
+    steps.append(('pB accepts', req('pB', False, 'put_json', base + '/' + P('pB'), {'status': 'accepted'})[0]))
     st_acc = req('pB', False, 'get', '/v2/workflows/%s' % uid(1))[0]
     steps.append(('pB reads once accepted', st_acc))
-    steps.append(('pB re-offers to pC', req('pB', False, 'post_json', base, {'member_id': 'pC'})[0]))
-    steps.append(('pC accepts', req('pC', False, 'put_json', base + '/pC', {'status': 'accepted'})[0]))
+    steps.append(('pB re-offers to pC', req('pB', False, 'post_json', base, {'member_id': P('pC')})[0]))
+    steps.append(('pC accepts', req('pC', False, 'put_json', base + '/' + P('pC'), {'status': 'accepted'})[0]))
     st_c = req('pC', False, 'get', '/v2/workflows/%s' % uid(1))[0]
     steps.append(('pC reads', st_c))
     offers_by_owner_to_c = [m for m in snapshot()[1] if m[2] == 'pA' and m[3] == 'pC']
@@ -1213,6 +1244,282 @@ def suite_rest(ctx):
     s['owner_probe'] = owner_status
     if sum(1 for v in owner_status.values() if v == 200) < 5:
         ctx.disagree('rest', 'owner probe', 'the owner reads its own private rows (>= 5 endpoints answer 200)', owner_status)
+
+
+# ---------------------------------------------------------------------------
+# REST list layer: every controller method that lists through rest_utils.get_all (from the extractor
+# translate/tr_restlists.py) x generated query strings x callers, on the real pecan application.
+# Compared with Tenancy.rest_view (insecure decision + policy gates + _secure_query) and judged directly:
+# a non-admin response - and what the db layer handed to the controller - holds only rows the caller may see.
+
+LIST_URLS = {
+    'workbook.WorkbooksController.get_all': '/v2/workbooks',
+    'workflow.WorkflowsController.get_all': '/v2/workflows',
+    'environment.EnvironmentController.get_all': '/v2/environments',
+    'cron_trigger.CronTriggersController.get_all': '/v2/cron_triggers',
+    'event_trigger.EventTriggersController.get_all': '/v2/event_triggers',
+    'execution.ExecutionsController.get_all': '/v2/executions',
+    'task.TasksController.get_all': '/v2/tasks',
+    'task.TaskExecutionsController.get_all': '/v2/tasks/%(parent)s/workflow_executions',
+    'task.ExecutionTasksController.get_all': '/v2/executions/%(parent)s/tasks',
+    'action_execution.ActionExecutionsController.get_all': '/v2/action_executions',
+    'action_execution.TasksActionExecutionController.get_all': '/v2/tasks/%(parent)s/action_executions',
+    'code_source.CodeSourcesController.get_all': '/v2/code_sources',
+    'dynamic_action.DynamicActionsController.get_all': '/v2/dynamic_actions',
+}
+PARENT_COL = {'task.TaskExecutionsController.get_all': 'task_execution_id',
+              'task.ExecutionTasksController.get_all': 'workflow_execution_id',
+              'action_execution.TasksActionExecutionController.get_all': 'task_execution_id'}
+PARENT = 900
+
+# rows of the model under test: (n, owner, scope, name token); 6 is shared with pB (accepted), 7 offered (pending)
+LIST_ROWS = [(1, 'pA', 'private', 100), (2, 'pA', 'public', 101), (3, 'pB', 'private', 102), (4, 'pC', 'private', 103),
+             (5, 'pC', 'public', 104), (6, 'pA', 'private', 105), (7, 'pA', 'private', 106)]
+LIST_MEMS = [(6, 'pA', 'pB', 'accepted'), (7, 'pA', 'pB', 'pending')]
+
+OTHER_FILTER_VALUES = {
+    'workflow_name': 'w', 'state': 'RUNNING', 'description': 'd5', 'tags': 'a', 'created_at': '2030-01-01 00:00:01',
+    'updated_at': '2030-01-01 00:00:01', 'namespace': '', 'definition': 'd5', 'input': 'x', 'output': 'x', 'params': 'x',
+    'pattern': '* * * * *', 'remaining_executions': '1', 'state_info': 'd5', 'scope': 'private', 'variables': 'x',
+    'workflow_input': 'x', 'workflow_params': 'x', 'processed': 'false', 'published': 'x', 'result': 'x', 'env': 'x',
+    'accepted': 'false', 'is_sync': 'false', 'action_name': 'x', 'task_name': 'x', 'workflow_namespace': '',
+    'first_execution_time': '2030-01-01 00:00:01', 'next_execution_time': '2031-01-01 00:00:00',
+}
+
+
+def load_rest_table(ctx=None):
+    sys.path.insert(0, os.path.join(core.VERIF, 'translate'))
+    import tr_restlists
+    return tr_restlists.analyse(core.REPO)
+
+
+def seed_list_db(ep):
+    m = ep['model']
+    wipe()
+    if m == 'DynamicActionDefinition':
+        insert_row('CodeSource', 50, 'pA', 'private', 150, 0, 8)
+        insert_row('CodeSource', 51, 'pB', 'private', 151, 0, 9)
+    for (n, owner, scope, name) in LIST_ROWS:
+        insert_row(m, n, owner if m != 'DynamicActionDefinition' or owner in ('pA', 'pB') else owner, scope, name, 0, 10 + n)
+    for (n, owner, member, status) in LIST_MEMS:
+        insert_member(n, SHAREABLE.get(m, 'workflow'), owner, member, status)
+    col = PARENT_COL.get(ep['name'])
+    if col:
+        insert_row('TaskExecution' if col == 'task_execution_id' else 'WorkflowExecution', PARENT, 'pB', 'private', 190, 0, 1)
+        eng = boot()['sa_base'].get_engine()
+        with eng.begin() as conn:
+            conn.execute(secure_tables()[m].__table__.update().values(**{col: uid(PARENT)}))
+
+
+def list_requests(ep, thorough, rng):
+    """query-string dicts; 'modelled' = the model predicts the exact result (all_projects, project_id, name,
+    presentation parameters), otherwise the extra filter can only narrow it"""
+    params = set(ep['params'])
+    reqs = [({}, True)]
+    pids = ['pA', 'pB', 'pC']
+    has_pid = 'project_id' in params
+    has_allp = 'all_projects' in params
+    has_name = 'name' in params
+    if has_allp:
+        reqs.append(({'all_projects': 'true'}, True))
+        reqs.append(({'all_projects': 'false'}, True))
+    if has_pid:
+        for pid in pids:
+            reqs.append(({'project_id': P(pid)}, True))
+        if has_allp:
+            reqs.append(({'project_id': P('pA'), 'all_projects': 'true'}, True))
+    if has_name:
+        for nm in (100, 102, 105):
+            reqs.append(({'name': 'n%d' % nm}, True))
+            if has_pid:
+                reqs.append(({'name': 'n%d' % nm, 'project_id': P('pA')}, True))
+        for op in ('neq:n102', 'in:n100,n105,n102', 'has:n10', 'nin:n102'):
+            reqs.append(({'name': op}, False))
+            if has_pid:
+                reqs.append(({'name': op, 'project_id': P('pA')}, False))
+    pres = [{'sort_keys': 'id', 'sort_dirs': 'desc'}, {'fields': 'id'}, {'limit': '50'}, {'limit': '2'},
+            {'marker': uid(3)}, {'marker': uid(1)}]
+    if has_name:
+        pres += [{'fields': 'id,name'}, {'sort_keys': 'name,id', 'sort_dirs': 'desc,asc'}]
+    for pr in pres:
+        exact = 'limit' not in pr or pr['limit'] == '50'
+        exact = exact and 'marker' not in pr
+        reqs.append((dict(pr), exact))
+        if has_pid:
+            reqs.append((dict(pr, project_id=P('pA')), exact))
+        if has_allp and thorough:
+            reqs.append((dict(pr, all_projects='true'), exact))
+    for f in ep['filters']:
+        if f in ('name', 'project_id') or f not in params:
+            continue
+        v = OTHER_FILTER_VALUES.get(f)
+        if f in ('workflow_id', 'root_execution_id'):
+            v = uid(1)
+        if f in ('task_execution_id', 'workflow_execution_id'):
+            v = uid(PARENT)
+        if v is None:
+            continue
+        reqs.append(({f: v}, False))
+        if has_pid:
+            reqs.append(({f: v, 'project_id': P('pA')}, False))
+        if thorough:
+            reqs.append(({f: 'neq:' + v}, False))
+            if has_pid:
+                reqs.append(({f: 'neq:' + v, 'project_id': P('pC')}, False))
+    if thorough:
+        keys = [f for f in ep['filters'] if f in params and f in OTHER_FILTER_VALUES]
+        for _ in range(25):
+            q = {}
+            for f in rng.sample(keys, min(len(keys), rng.choice([1, 2, 3]))):
+                q[f] = OTHER_FILTER_VALUES[f]
+            if has_pid and rng.random() < 0.7:
+                q['project_id'] = P(rng.choice(pids))
+            if has_allp and rng.random() < 0.3:
+                q['all_projects'] = 'true'
+            if has_name and rng.random() < 0.4:
+                q['name'] = rng.choice(['n100', 'n102', 'neq:n102'])
+            reqs.append((q, False))
+    return reqs
+
+
+class FetchSpy:
+    """records what the db layer hands to the REST layer during one request"""
+
+    def __init__(self):
+        self.rows = []
+        self.calls = 0
+
+    def install(self):
+        from unittest import mock
+        sa_api = boot()['sa_api']
+        real = sa_api._get_collection
+        spy = self
+
+        def wrapped(model, *a, **k):
+            res = real(model, *a, **k)
+            spy.calls += 1
+            for x in res:
+                rid = getattr(x, 'id', None)
+                if rid is None and isinstance(x, tuple) and x:
+                    rid = x[0]
+                spy.rows.append((model.__name__, rid))
+            return res
+        self.patch = mock.patch.object(sa_api, '_get_collection', wrapped)
+        self.patch.start()
+
+    def reset(self):
+        self.rows, self.calls = [], 0
+
+    def stop(self):
+        self.patch.stop()
+
+
+def rest_view_expr(ep, rows_db, project, admin, q):
+    allp = 'all_projects' in q    # wsme turns any non-empty text (also 'false') into True for these parameters
+    pid = PROJ[UNP(q['project_id'])] if 'project_id' in q else None
+    nm = None
+    if 'name' in q:
+        nm = int(q['name'][1:])
+    return ('rest_view insecure_cond '
+            '(match find (fun e => String.eqb (fst e) %s) rest_lists with Some e => snd e | None => '
+            'mkListEp Workbook "" RAdminOnly GateNever RAdminOnly false false end) '
+            '(match find (fun e => String.eqb (fst (fst e)) %s) db_shapes with Some (_, _, SList q) => q | _ => QInsecure end) '
+            '%s (mkCtx %d %s) (mkLreq %s %s %s)' % (
+                core.coq_str(ep['name']), core.coq_str(ep['fn']), rows_db, PROJ[project], 'true' if admin else 'false',
+                'true' if allp else 'false', coq_opt(pid), coq_opt(nm)))
+
+
+def suite_rest_lists(ctx):
+    from urllib.parse import urlencode
+    rt = load_rest_table(ctx)
+    rest_app()
+    spy = FetchSpy()
+    spy.install()
+    callers = [('pB', False), ('pAdm', True), ('pA', False)] + ([('pC', False)] if ctx.thorough() else [])
+    exprs, recs = [], []
+    stats = {}
+    unknown = [e['name'] for e in rt['endpoints'] if e['name'] not in LIST_URLS]
+    if unknown:
+        ctx.disagree('rest_lists', 'endpoints', 'every list endpoint has a URL in the harness', unknown)
+    try:
+        for ep in rt['endpoints']:
+            if ep['name'] not in LIST_URLS:
+                continue
+            seed_list_db(ep)
+            snap = snapshot()
+            rows_db = model_db_from(snap)
+            base = LIST_URLS[ep['name']] % {'parent': uid(PARENT)}
+            table_rows = {rid: r for (mname, rid), r in snap[0].items() if mname == ep['model']}
+            shared = {a for (a, t, o, mm, st) in snap[1] if st == 'accepted' and t == SHAREABLE.get(ep['model']) and mm == 'pB'}
+            for (q, exact) in list_requests(ep, ctx.thorough(), ctx.rng):
+                url = base + ('?' + urlencode(q) if q else '')
+                for (project, admin) in callers:
+                    spy.reset()
+                    st, body = req(project, admin, 'get', url)
+                    fetched = [rid for (mname, rid) in spy.rows if mname == ep['model']]
+                    ids = None
+                    if st == 200:
+                        try:
+                            js = json.loads(body)
+                            lst = next(v for v in js.values() if isinstance(v, list))
+                            ids = [x.get('id') for x in lst]
+                        except Exception:
+                            ids = None
+                    klass = 'ok' if st == 200 and ids is not None else 'forbidden' if st == 403 else \
+                        'notfound' if st == 404 else 'rejected' if st == 400 else 'error%d' % st
+                    key = '%s/%s' % (klass, 'admin' if admin else 'user')
+                    stats[key] = stats.get(key, 0) + 1
+                    ctx.count('rest_lists', (ep['name'], tuple(sorted(q.items())), project))
+                    # ---- oracle: what a non-admin receives, and what the db layer handed over for it
+                    if not admin:
+                        seen = set(ids or []) | set(fetched)
+                        for rid in seen:
+                            r = table_rows.get(rid)
+                            if r is None:
+                                continue
+                            mine = r['project_id'] == project
+                            ok = mine or r['scope'] == 'public' or (project == 'pB' and rid in shared)
+                            if not ok:
+                                pn = sorted(k for k in q if k in ('all_projects', 'project_id')) or ['-']
+                                ctx.fail('rest-list-private-read:%s?%s' % (LIST_URLS[ep['name']].replace('%(parent)s', '<id>'), '&'.join(pn)),
+                                         'GET %s as non-admin project %s %s the private %s row %s (%s) of project %s'
+                                         % (url, project, 'lists' if rid in (ids or []) else 'fetches from the db layer',
+                                            ep['model'], rid, r.get('name'), r['project_id']),
+                                         {'rest_list': ep['name'], 'url': url, 'project': project, 'query': q, 'status': st})
+                                break
+                    # ---- correspondence with the model
+                    marker_refused = 'marker' in q and st == 404
+                    if klass in ('rejected',) and set(q) <= {'all_projects', 'project_id', 'name', 'fields', 'sort_keys', 'sort_dirs', 'limit'}:
+                        ctx.disagree('rest_lists', {'url': url, 'project': project}, 'request accepted', 'status 400: %s' % body[:120])
+                        continue
+                    if klass.startswith('error') or klass in ('rejected', 'notfound') or marker_refused:
+                        continue    # refused before / without listing: stricter than the model, nothing to compare
+                    exprs.append(rest_view_expr(ep, rows_db, project, admin, {k: v for k, v in q.items()
+                                                                           if k in ('all_projects', 'project_id') or (k == 'name' and ':' not in v)}))
+                    recs.append(({'endpoint': ep['name'], 'url': url, 'project': project, 'admin': admin}, klass,
+                                 sorted(tok_id(i, 4) for i in (ids or [])), exact and 'marker' not in q))
+            if snapshot() != snap:
+                ctx.fail('rest-list-writes', 'list requests changed rows of %s' % ep['model'], {'rest_list': ep['name']})
+    finally:
+        spy.stop()
+    res = core.coq_eval('c15restlists', IMPORTS, exprs, chunk=200)
+    for (case, klass, ids, exact), r in zip(recs, res):
+        ctx.cov['disagreements_checked'] += 1
+        if r is None:
+            ctx.disagree('rest_lists', case, 'no model output', [klass, ids])
+            continue
+        tag, mids = parse_coq(r)
+        mids = sorted(mids)
+        if tag != klass or (exact and mids != ids) or (not exact and not set(ids) <= set(mids)):
+            ctx.disagree('rest_lists', case, [tag, mids], [klass, ids, 'exact' if exact else 'subset'])
+    su = ctx.cov['suites'].setdefault('rest_lists', {})
+    su['endpoints'] = len(rt['endpoints'])
+    su['insecure_cond'] = rt['insecure_cond']
+    su['responses'] = stats
+    su['compared_with_model'] = len(recs)
+    # the probes must not be vacuous: non-admin requests naming another project are answered, not rejected
+    if stats.get('ok/user', 0) < 100:
+        ctx.disagree('rest_lists', 'vacuity', 'at least 100 non-admin list requests answered 200', stats)
 
 
 # ---------------------------------------------------------------------------
@@ -1351,6 +1658,7 @@ def run(ctx):
                     ('members', lambda: suite_members(ctx)),
                     ('histories', lambda: suite_histories(ctx, table, ctx.n(60, 900), ctx.n(8, 10))),
                     ('rest', lambda: suite_rest(ctx)),
+                    ('rest_lists', lambda: suite_rest_lists(ctx)),
                     ('expr', lambda: suite_expr(ctx))]:
         t0 = time.time()
         f()
@@ -1387,6 +1695,7 @@ def search(ctx, table=None):
         before, impl, after, expr = run_member_cell(cell)
         oracle_member(ctx, cell, before, impl, after)
     suite_rest(ctx)
+    suite_rest_lists(ctx)
     suite_expr(ctx)
 
 
@@ -1405,6 +1714,23 @@ def replay(obj):
     elif 'member_cell' in r:
         before, impl, after, expr = run_member_cell(r['member_cell'])
         oracle_member(ctx, r['member_cell'], before, impl, after)
+    elif 'rest_list' in r:
+        rest_app()
+        rt = load_rest_table()
+        ep = [e for e in rt['endpoints'] if e['name'] == r['rest_list']][0]
+        seed_list_db(ep)
+        snap = snapshot()
+        st, body = req(r['project'], False, 'get', r['url'])
+        print('GET %s as non-admin project %s -> %d' % (r['url'], r['project'], st))
+        shared = {a for (a, t, o, mm, s_) in snap[1] if s_ == 'accepted' and t == SHAREABLE.get(ep['model']) and mm == r['project']}
+        try:
+            lst = next(v for v in json.loads(body).values() if isinstance(v, list))
+        except Exception:
+            lst = []
+        for x in lst:
+            row = snap[0].get((ep['model'], x.get('id')))
+            if row and row['project_id'] != r['project'] and row['scope'] != 'public' and x.get('id') not in shared:
+                ctx.fail(sig or 'rest-list-private-read', 'lists the private %s row %s of project %s' % (ep['model'], x.get('id'), row['project_id']), r)
     elif 'rest' in r or 'rest_members' in r:
         suite_rest(ctx)
     elif 'expr' in r:
